@@ -91,6 +91,8 @@ const VERSIONS: [u32; 4] = [1, 2, 3, 1000];
 mod ext;
 #[path = "../codec_glue.rs"]
 mod glue;
+#[path = "../codec_more.rs"]
+mod more;
 
 struct Ctx {
 	out: Out,
@@ -2938,6 +2940,12 @@ fn main() {
 	}
 	if mode == "all" || mode == "glue" {
 		glue::glue(&mut cx, &work);
+	}
+	if mode == "all" || mode == "csend" {
+		more::concurrent_senders(&mut cx);
+	}
+	if mode == "all" || mode == "hstime" {
+		more::handshake_timeouts(&mut cx);
 	}
 	if mode == "all" || mode == "hsw" {
 		ext::handshake_wire(&mut cx);
